@@ -121,14 +121,14 @@ PROPS = {
         "rule": "mutation stream over generated valid texts (deleted / duplicated / renamed labels, swapped sections, truncation, inserted characters incl. non-ASCII, extra / missing guesses, undeclared references, sqrt nesting, odd numbers, noise) compared exactly between the real front-end and the Lean model; strictness and no-silent-drop checked on the real code",
     },
     "C13": {
-        "modules": ["Ezpz.Properties.C13", "Ezpz.Real.Deriv", "Ezpz.Real.DerivA", "Ezpz.Real.DerivD", "Ezpz.Real.DerivE"],
+        "modules": ["Ezpz.Properties.C13", "Ezpz.Real.Deriv", "Ezpz.Real.DerivA", "Ezpz.Real.DerivB", "Ezpz.Real.DerivC", "Ezpz.Real.DerivD", "Ezpz.Real.DerivE"],
         "suites": [
             {"suite": "kernels", "quick": (200,), "thorough": (5000,)},
         ],
         "oracles": [
             {"bin": "oracle_c13", "quick": ("{seed}", "150"), "thorough": ("{seed}", "5000")},
         ],
-        "partial": ["kinds whose derivative theorem over the reals is not (yet) in Ezpz/Real/Deriv*.lean are covered by the finite-difference oracle on the real code and by corr-kernels only; see the theorem list in this evidence for the kinds that are proved",
+        "partial": [
                     "inside the coarse guard bands (e.g. Symmetric |pq| < 0.1, LineTangentToCircle |v| < 0.01) the linearisation is switched off while the residual is live: excluded by the property's own 'away from the documented degeneracies'"],
         "assumptions": ["derivative theorems are about exact real arithmetic of the model's formulas; the f64 code is tied to the model by corr-kernels (all aliasing patterns)"],
         "rule": "corr-kernels: per shape, ids from small pools so that aliasing patterns occur, values over scales 1e-2..1e3 plus degenerate / special / out-of-range streams; oracle: 4th-order central differences with Richardson extrapolation of the real residual vs the real jacobian_rows per shape, row and declared variable",
